@@ -85,6 +85,8 @@ CardFormatText(s) ==
 TextDenotes(type, cp, text) ==
   CASE type = "date" -> DateText(cp)
     [] type = "date-json" -> IF Len(cp) = 0 THEN Val(ZeroDate) ELSE DateText(cp)
+    \* a date inside a card document: a card has both of its dates - a blank (or absent) one is no card
+    [] type = "card-date" -> DateText(cp)
     [] type = "hhmm" -> HHmmText(cp)
     [] type = "systime" -> ClockText(cp)
     [] type = "pin" -> PinText(cp)
